@@ -301,24 +301,44 @@ func (c *Ctx) settleMem() {
 }
 
 // ReleaseMem applies ReleaseMem(n): used memory goes down by at most n.
-// over reports that more was released than is in use (caller's error: the
-// implementation may refuse loudly).
+// over reports that more was released than the active context has in use.
+// That is the caller giving back memory that was charged before the context
+// was entered: the implementation may refuse loudly, ignore the excess, or
+// take the excess off the enclosing contexts - each of them then goes down by
+// at most what is left of n.
 func (m *Machine) ReleaseMem(n uint64) (over bool) {
-	c := m.Top()
+	i := len(m.Stack) - 1
+	c := m.Stack[i]
 	if !c.CareMem() || c.MemOvf {
 		return false
 	}
-	lo := uint64(0)
 	if n <= c.Used.Mem {
-		lo = c.Used.Mem - n
-	} else {
-		over = true
+		c.loosen(c.Used.Mem - n)
+		return false
 	}
+	rest := n - c.Used.Mem
+	c.loosen(0)
+	for i--; i >= 0 && rest > 0; i-- {
+		a := m.Stack[i]
+		if !a.CareMem() || a.MemOvf {
+			continue
+		}
+		if a.Used.Mem > rest {
+			a.loosen(a.Used.Mem - rest)
+			rest = 0
+		} else {
+			rest -= a.Used.Mem
+			a.loosen(0)
+		}
+	}
+	return true
+}
+
+func (c *Ctx) loosen(lo uint64) {
 	if !c.memLoose || lo < c.MemLo {
 		c.MemLo = lo
 	}
 	c.memLoose = true
-	return over
 }
 
 // Stop applies SetStopLevel to the top context.
